@@ -7,7 +7,7 @@ does not depend on the iteration order.  On the faithful model M-PROP: the count
 receives is the chop's total, whatever the schedule (`T_C02_count_schedule_free`).
 -/
 import CBV.Lemmas.C02Term
-import CBV.Props.C01
+import CBV.Lemmas.C01Core
 import CBV.Lemmas.C02Sim
 import CBV.Lemmas.C01Hist
 
@@ -167,8 +167,8 @@ theorem T_C02_count_schedule_free (inp inp' : Inp) (st st' : St)
     (h : run inp = .ok st) (h' : run inp' = .ok st') (x : Nat) (hx : x < 3 * inp.nBlocks)
     (hu : userChopped inp x = true) (w : Nat) (hf : Fam inp (4 * x) w) (hf' : Fam inp' (4 * x) w) :
     count (specOf st w) = count (specOf st' w) := by
-  rw [T_C01_family_count inp st h x hx hu w hf,
-    T_C01_family_count inp' st' h' x (hn ▸ hx) (by unfold userChopped at hu ⊢; rw [← hchops]; exact hu) w hf']
+  rw [C01_family_count inp st h x hx hu w hf,
+    C01_family_count inp' st' h' x (hn ▸ hx) (by unfold userChopped at hu ⊢; rw [← hchops]; exact hu) w hf']
   unfold chopTotal; rw [hchops]
 
 end CBV.Prop
